@@ -106,6 +106,12 @@ Theorem C03_parents : forall root d, read_ttml root = Ok d -> NoDup (map elem_id
             match elem_style n with Some p => map_mem p (td_styles d) = true | None => True end.
 Proof. exact styles_linked. Qed.
 Print Assumptions C03_parents.
+(* every reference the reader returns names an entry of the document's tables *)
+Theorem C03_refs : forall root d, read_ttml root = Ok d ->
+  Forall (fun it => opt_in (td_regions d) (ti_region it) /\ opt_in (td_styles d) (ti_style it) /\
+                    Forall (Forall (fun r => opt_in (td_styles d) (tr_style r))) (ti_lines it)) (td_items d).
+Proof. exact refs_closed. Qed.
+Print Assumptions C03_refs.
 Theorem C03_language : forall code name rest, In (code, name) lang_table -> lang_of (code ++ rest) = name.
 Proof. exact lang_of_table. Qed.
 Print Assumptions C03_language.
